@@ -28,6 +28,7 @@ type PLVersion struct {
 	End  bool   `json:"end"`
 	Type string `json:"type"` // "" | EVENT | VOD
 	Hint int    `json:"hint"` // Low-Latency: number of the hinted part (0: no preload hint)
+	Wait int    `json:"wait"` // the server answers this version after this many ms (a blocking reload)
 }
 
 // StreamSpec is one media playlist (the first stream is the leading one).
@@ -387,6 +388,7 @@ func (r *runner) handle(i int, req *http.Request) (Resp, string, map[string]inte
 		info["s"], info["ver"], info["ms"], info["n"], info["end"] = j, vi+1, v.MS, v.N, b2i(v.End)
 		info["vod"] = b2i(v.Type == "VOD")
 		info["hint"] = v.Hint
+		resp.Delay = time.Duration(v.Wait) * time.Millisecond
 	case reInit.MatchString(path):
 		kind = "init"
 		j, _ := strconv.Atoi(reInit.FindStringSubmatch(path)[1])
